@@ -200,6 +200,7 @@ func runC12(c *Check) {
 	ruleDecoderGuards(c, p)
 	ruleGobTypes(c, p)
 	ruleVerifierBoundBeforeValidation(c, p)
+	ruleSubmessagePresence(c, p)
 }
 
 // ruleVerifierBoundBeforeValidation (C12-R6): the payload provider a signed header is verified
@@ -1032,4 +1033,163 @@ func leafMentioned(paths map[string]bool, want string) bool {
 		}
 	}
 	return false
+}
+
+// ---- C12-R7: presence of sub-messages on the wire. In proto3 an absent sub-message and a
+// present-but-empty one are different bytes; whether an encoder emits a sub-message always or
+// only for some values is therefore part of the wire format. The shape computed from the
+// encoders is compared with a committed reference (reference/proto_presence.json): a change
+// makes fixed values encode to different bytes, hashes and signature payloads.
+type presenceEntry struct {
+	Encoder  string `json:"encoder"`
+	Field    string `json:"field"`
+	Presence string `json:"presence"` // always | conditional
+}
+
+func submessagePresence(p *Prog) []presenceEntry {
+	var out []presenceEntry
+	// value is a non-nil allocation on every alternative, looking through helpers
+	var always func(v ssa.Value, fn *ssa.Function, d int) bool
+	always = func(v ssa.Value, fn *ssa.Function, d int) bool {
+		switch x := v.(type) {
+		case *ssa.Alloc:
+			return true
+		case *ssa.Phi:
+			for _, e := range x.Edges {
+				if !always(e, fn, d) {
+					return false
+				}
+			}
+			return len(x.Edges) > 0
+		case *ssa.Extract:
+			if call, ok := x.Tuple.(*ssa.Call); ok {
+				return alwaysCall(p, call, x.Index, d, always)
+			}
+		case *ssa.Call:
+			return alwaysCall(p, x, 0, d, always)
+		case *ssa.MakeInterface:
+			return always(x.X, fn, d)
+		case *ssa.ChangeType:
+			return always(x.X, fn, d)
+		}
+		return false
+	}
+	for _, wp := range wirePairs {
+		fn := p.Func(typesM(wp.goT, "ToProto"))
+		if fn == nil {
+			continue
+		}
+		fields := map[string]bool{} // field -> always on every returned literal
+		seenField := map[string]bool{}
+		for _, b := range fn.Blocks {
+			ret, ok := b.Instrs[len(b.Instrs)-1].(*ssa.Return)
+			if !ok || len(ret.Results) == 0 {
+				continue
+			}
+			// the returned message: &pb.X{…} (possibly through a phi of literals)
+			var lits []*ssa.Alloc
+			var collect func(v ssa.Value, d int)
+			collect = func(v ssa.Value, d int) {
+				switch x := v.(type) {
+				case *ssa.Alloc:
+					lits = append(lits, x)
+				case *ssa.Phi:
+					if d < 4 {
+						for _, e := range x.Edges {
+							collect(e, d+1)
+						}
+					}
+				}
+			}
+			collect(spilledResult(ret, 0), 0)
+			for _, lit := range lits {
+				st := derefStruct(lit.Type())
+				if st == nil {
+					continue
+				}
+				stores := litStores(lit)
+				for i := 0; i < st.NumFields(); i++ {
+					f := st.Field(i)
+					pt, isPtr := f.Type().(*types.Pointer)
+					if !isPtr || !f.Exported() {
+						continue
+					}
+					if _, isStruct := pt.Elem().Underlying().(*types.Struct); !isStruct {
+						continue
+					}
+					vals := stores[f.Name()]
+					al := len(vals) > 0
+					for _, v := range vals {
+						if !always(v, fn, 0) {
+							al = false
+						}
+					}
+					if !seenField[f.Name()] {
+						seenField[f.Name()] = true
+						fields[f.Name()] = al
+					} else if !al {
+						fields[f.Name()] = false
+					}
+				}
+			}
+		}
+		for _, name := range sortedKeys(fields) {
+			pr := "conditional"
+			if fields[name] {
+				pr = "always"
+			}
+			out = append(out, presenceEntry{Encoder: wp.goT + ".ToProto", Field: name, Presence: pr})
+		}
+	}
+	return out
+}
+
+func alwaysCall(p *Prog, call *ssa.Call, k int, d int, always func(ssa.Value, *ssa.Function, int) bool) bool {
+	cal := call.Common().StaticCallee()
+	if cal == nil || !p.InRepo(cal) || d > 2 {
+		return false
+	}
+	n := 0
+	for _, b := range cal.Blocks {
+		ret, ok := b.Instrs[len(b.Instrs)-1].(*ssa.Return)
+		if !ok || k >= len(ret.Results) {
+			continue
+		}
+		n++
+		if !always(spilledResult(ret, k), cal, d+1) {
+			return false
+		}
+	}
+	return n > 0
+}
+
+func ruleSubmessagePresence(c *Check, p *Prog) {
+	rule := "C12-R7"
+	c.Doc(rule, "ST: for every sub-message field of every wire encoder, whether it is emitted always or only for some values equals the committed reference (an absent and an empty sub-message are different bytes in proto3: a change alters the bytes, hashes and signature payloads of fixed values).")
+	refPath := filepath.Join(filepath.Dir(variantsDir), "reference", "proto_presence.json")
+	var ref []presenceEntry
+	if b, e := os.ReadFile(refPath); e == nil {
+		json.Unmarshal(b, &ref)
+	}
+	if len(ref) == 0 {
+		c.Unk(rule, "reference", "", "", "anchor lost: reference/proto_presence.json missing or empty")
+		return
+	}
+	got := map[string]string{}
+	for _, e := range submessagePresence(p) {
+		got[e.Encoder+"."+e.Field] = e.Presence
+	}
+	for _, r := range ref {
+		k := r.Encoder + "." + r.Field
+		inst := k + " ⟂ presence=" + r.Presence
+		switch g := got[k]; {
+		case g == "":
+			c.Unk(rule, inst, "", "", "anchor lost: the encoder no longer assigns this sub-message field in a message literal")
+		case g == r.Presence:
+			c.OK(rule, inst, "", "", "the sub-message is emitted "+g+", as in the reference", true)
+		default:
+			c.Bad(rule, inst, "", "", "the sub-message is now emitted "+g+" (reference: "+r.Presence+"): values that encode with an empty sub-message today encode without it (or vice versa), so their bytes, hash and signature payload change while round trips inside one binary still pass", nil)
+		}
+	}
+	c.MinInstances(rule, len(ref))
 }
